@@ -85,6 +85,9 @@ type VerifGroup struct {
 	GetCalls     int
 	SendLog      []datatransfer.EventCode
 	Applied      int
+	// DeferNotify: announcements are queued instead of being made inside Send (see apply)
+	DeferNotify bool
+	deferred    []func()
 }
 
 // VerifLastGroup is the group created by the most recent channels.New.
@@ -332,7 +335,16 @@ func (g *VerifGroup) apply(e *verifEntry, ev *verifEvent, args []interface{}) {
 	e.st = work
 	g.Applied++
 	if g.params.Notifier != nil {
-		g.params.Notifier(ev.name, *cloneState(work))
+		if g.DeferNotify {
+			// go-statemachine announces an event from the state machine's own goroutine, i.e. possibly
+			// AFTER the call that sent the event has returned to its caller; in this mode the
+			// announcements are queued (in order) and delivered when the harness says so
+			snap := *cloneState(work)
+			name := ev.name
+			g.deferred = append(g.deferred, func() { g.params.Notifier(name, snap) })
+		} else {
+			g.params.Notifier(ev.name, *cloneState(work))
+		}
 	}
 	if g.isFinal(work.Status) {
 		return
@@ -468,4 +480,14 @@ func VerifNewChannels(notifier Notifier, env ChannelEnvironment, self string) (*
 		panic(err)
 	}
 	return c, g
+}
+
+// VerifDeliverDeferred delivers the queued announcements, in the order the events were applied
+// (announcements queued while delivering are delivered too).
+func (g *VerifGroup) VerifDeliverDeferred() {
+	for len(g.deferred) > 0 {
+		f := g.deferred[0]
+		g.deferred = g.deferred[1:]
+		f()
+	}
 }
